@@ -94,6 +94,21 @@ func InstallFaults(f *Fed, faults []FaultSpec, barrier int) *FaultLog {
 						}
 						data, _ := Exec(s.Schema, s.Store, doc, in.OperationName, in.Variables)
 						return data, graphql.ErrorList{&graphql.Error{Message: "injected-with-data"}}, true
+					case "blank-error":
+						// a server that blanks its messages: the failure is one all the same
+						fl.Failures++
+						fl.Errors++
+						return nil, graphql.ErrorList{&graphql.Error{Message: ""}}, true
+					case "empty-errors":
+						// {"data": …, "errors": []}: the answer of a server that always writes the errors member; the
+						// queryer hands up a non-nil, EMPTY error list with the data (nothing failed)
+						fl.Shapes++
+						doc, errs := gqlparser.LoadQuery(s.Schema, in.Query)
+						if errs != nil {
+							return nil, nil, false
+						}
+						data, _ := Exec(s.Schema, s.Store, doc, in.OperationName, in.Variables)
+						return data, graphql.ErrorList{}, true
 					case "timeout":
 						// what a queryer with its own per-call budget returns: an error that wraps the context error of
 						// THAT call (the request's own context is alive and well)
